@@ -2,6 +2,7 @@
 # seeded_run.sh <seed-id> <check-id>... : apply the seeded patch to /repo, run the checks, undo.
 ID=$1; shift
 cd /verif
+EVB=$(mktemp -d /dev/shm/evidence-keep.XXXX); cp -a evidence/. $EVB/   # evidence written against a seeded change must not stay
 git -C /repo apply /verif/seeded/$ID/patch.diff || { echo "patch does not apply"; exit 2; }
 for c in "$@"; do
   echo "== $c against $ID"
@@ -9,4 +10,5 @@ for c in "$@"; do
   echo "exit=${PIPESTATUS[0]}"
 done
 git -C /repo checkout -- .
+cp -a $EVB/. evidence/; rm -rf $EVB
 git -C /repo status --short | head -3
